@@ -497,6 +497,9 @@ class PeerConnection:
                 until at least one valid message has been received
 
         """
+        # the idle clock follows what has arrived, not what the connection's
+        # reader thread has got round to (it may be busy in a request handler)
+        self.reset_last_read()
         self._read_buffer_queue.put(read_bytes)
 
     def add_out_msg(self, out_msg: _AnyMessageType):
